@@ -21,7 +21,7 @@ THEOREMS = [P + t for t in ("flow_is_modelled", "identity_unset_refused", "ident
                               "merge_frame", "shared_refines_spec", "shared_refines_history", "disjoint_refines_spec",
                               "disjoint_refines_history", "backends_agree",
                               "store_refines_reference", "unique_keys_reachable", "store_refines_reference_history", "view_absS",
-                              "content_after_history", "nid_unique_rewrite_counterexample",
+                              "content_after_history", "nid_unique_rewrite_counterexample", "nid_unique_partial", "backends_agree_partial",
                               "backends_diverge_on_rehoming_counterexample", "disjoint_container_refines_reference",
                               "disjoint_find_matching_refines", "backends_agree_find_matching")]
 TRUSTED_BASE = [
@@ -68,6 +68,29 @@ def load_corpus():
     return out
 
 
+def merge_chain(rng, gids, nids):
+    """three graphs sharing a node id, each with links of its own (one of them a link of the shared node to itself), then
+    merges along a chain: the links a first merge leaves between two graphs must survive the second"""
+    x = rng.choice(nids)
+    others = [n for n in nids if n != x]
+    h = []
+    for i, g in enumerate(gids[:3]):
+        y = others[i % len(others)]
+        h += [["add_node", g, x, rng.choice(L.CLASSES), {"Name": "v%d" % i} if rng.random() < 0.6 else None],
+              ["add_node", g, y, rng.choice(L.CLASSES), None],
+              ["add_link", g, x, rng.choice(L.RELS), y, {"p": "l%d" % i} if rng.random() < 0.5 else None]]
+        if rng.random() < 0.3:
+            h.append(["add_link", g, x, rng.choice(L.RELS), x, {"q": "self"}])
+    order = list(gids[:3])
+    rng.shuffle(order)
+    a, b, c = order
+    pol = lambda: (None if rng.random() < 0.5 else {"Name": rng.choice(["discard", "overwrite", "combine"])})  # noqa
+    h += [["merge_nodes", b, x, c, pol()], ["merge_nodes", a, x, b, pol()]]
+    if rng.random() < 0.5:
+        h.append(["get_link_properties", a, x, x])
+    return h
+
+
 STORE_KINDS = ["add_graph", "add_graph", "add_graph_direct", "clone", "clone", "merge_nodes", "merge_nodes"]
 
 
@@ -81,6 +104,10 @@ def gen_histories(ctx, tag, n, length, keys=0.0, store=False):
         h, sh = [], L.Shadow()
         if store and rng.random() < 0.25:
             _, h = L.gen_scenario(rng, gids, nids)
+            for r in h:
+                sh.note(r)
+        elif rng.random() < 0.12:
+            h = merge_chain(rng, gids, nids)
             for r in h:
                 sh.note(r)
         for _ in range(rng.randint(2, 7)):
